@@ -122,6 +122,9 @@ def body():
         info = V.validate_traces("GlobalIndexTrace.tla", "GlobalIndexTrace.cfg", tf, sc)
         if not info["consumed_ok"]:
             raise V.Infra("monitor did not consume the trace:\n" + info.get("tail", ""))
+        total_viol = (info["done"][0].get("violations", len(info["violations"])) if info["done"] else len(info["violations"]))
+        if total_viol > len(info["violations"]):
+            res.notes.append("monitor reported %d failed predicates, the first %d are kept in full" % (total_viol, len(info["violations"])))
         per_beh = {}
         for v in info["violations"]:
             per_beh.setdefault(v["t"], []).append(v)
